@@ -327,6 +327,10 @@ def export_shapes(tier):
     add('x-eos-multi', eos=dict(mode='multi'), temperature='sym', parts=['eos'])
     add('x-eos-simulator', eos=dict(mode='simulator', multi='absent'), temperature='sym', parts=['eos'])
     add('x-eos-simulator-multi-noeos', eos=dict(mode='simulator', multi='noeos', cells=3), parts=['eos'])
+    # MULTI has an 'eos' entry but it is empty / None / blank (an AUTOUGH2 file whose MULTI line leaves the field blank): the simulator string names the EOS
+    add('x-eos-simulator-multi-empty', eos=dict(mode='simulator', multi='blank', cells=3), parts=['eos'])
+    add('x-eos-simulator-multi-none', eos=dict(mode='simulator', multi='none', cells=2), parts=['eos'])
+    add('x-eos-simulator-multi-spaces', eos=dict(mode='simulator', multi='spaces', cells=4), parts=['eos'])
     add('x-gens-basic', atm=0, generators=[dict(type='MASS', block='sym', name=' ge 1'), dict(type='HEAT', block=2, name=' ge 1', hg=None, fg=None),
                                             dict(type='COM1', block=2, name=' ge 1', hg=None, fg=None), dict(type='DELV', block=0, name=' ge 4')], parts=['generators'])
     add('x-json-whole', atm=1, eos=dict(mode='multi'), generators=[dict(type='MASS', block=3, gx=-2.5, hg=None, fg=None), dict(type='DELG', block='sym', fg=0., hg=0.)], parts=['json'])
@@ -402,6 +406,9 @@ def conv_shapes(tier):
     add('toA-solvr', dir='toA', c01=c01shape(T2_SECS, [G_('any', 1)], False), history=hist_mixed, mop='quiet', filename='MODEL.DAT')
     add('toA-MP', dir='toA', MP=True, c01=c01shape(T2_SECS, [G_('com')], False), history=hist_obj, filename='INFILE',
         mop={'12': False, '22': False, '23': False, '24': False})
+    # generators sharing (block, name) + a GOFT request for their block: every one of them gets a short-output request
+    add('toA-dup-goft', dir='toA', c01=c01shape(T2_SECS, [G_('com', 1, ' ge 1'), G_('any', 1, ' ge 1'), G_('com', 0, ' ge 2'), G_('lacking', 1, ' ge 1')], False),
+        history=dict(block=[('blk', 1)], generator=[('blk', 1), ('blk', 0)]), mop='quiet', solver_max=6, filename='m.dat')
     add('toA-type-setter', dir='toA', via='type', c01=c01shape(T2_SECS, [G_('com'), G_('lacking', 2)], False), history=hist_obj, mop='quiet',
         solver_max=6)
     if tier == 'thorough':
